@@ -41,6 +41,7 @@ SHAPES = {
     "SolidRectangle": {"lengthOuter": 5.0, "widthOuter": 3.0, "mult": 1},
     "Square": {"widthOuter": 3.0, "widthInner": 2.0, "mult": 1},
     "Triangle": {"base": 3.0, "height": 2.0, "mult": 4},
+    "UnshapedComponent": {"area": 3.0},
     "Helix": {"od": 0.25, "id": 0.0, "axialPitch": 30.0, "helixDiameter": 2.0, "mult": 9},
     "HexHoledCircle": {"od": 16.0, "holeOP": 3.0, "mult": 1},
     "HoledHexagon": {"op": 16.5, "holeOD": 3.6, "nHoles": 7, "mult": 1},
@@ -50,6 +51,7 @@ SHAPES = {
 SHAPE_NAMES = sorted(SHAPES)
 _MATERIALS = None
 NO_CORRELATION = []
+ZERO_T = {}
 
 
 def material_table():
@@ -96,6 +98,26 @@ def material_table():
                 # material (RuntimeError in getThermalExpansionFactor); not a subject of this law
                 NO_CORRELATION.append(nm)
                 continue
+        # a temperature of the valid range at which the correlation is exactly zero (its reference point)
+        zero_t = None
+        if not fluidish:
+            cands = [25.0, 26.85, 20.0, 21.11, 19.85, 0.0]
+            for key, (rng_, unit) in pv.items():
+                if "expansion" in key and "volumetric" not in key:
+                    cands.insert(0, float(rng_[0]) - (273.15 if unit == "K" else 0.0))
+            for T in cands:
+                inside = all(
+                    (float(r_[0]) - (273.15 if u_ == "K" else 0.0)) <= T + 1e-9
+                    for k_, (r_, u_) in pv.items()
+                    if "expansion" in k_ and "volumetric" not in k_
+                )
+                try:
+                    if inside and m.linearExpansionPercent(Tc=T) == 0 and m.linearExpansionPercent(Tc=T + 150.0) != 0:
+                        zero_t = T
+                        break
+                except Exception:  # noqa: BLE001
+                    pass
+        ZERO_T[nm] = zero_t
         out.append((nm, fluidish, (round(lo, 2), round(hi, 2))))
     _MATERIALS = sorted(out)
     return _MATERIALS
@@ -117,6 +139,9 @@ def gen_plan(rng, index, tier):
     path = [round(rng.uniform(lo, hi), 2) for _ in range(npts)]
     path2 = [round(rng.uniform(lo, hi), 2) for _ in range(rng.randint(0, 3))]
     cfg = {"shape": shape, "material": mname, "fluidish": fluidish, "range": [lo, hi], "dims": dims, "Tinput": tin, "Thot": round(rng.uniform(lo, hi), 2)}
+    if ZERO_T.get(mname) is not None and rng.random() < 0.35:
+        # the path passes through the temperature at which the material's correlation is exactly zero
+        path.insert(rng.randrange(1, len(path) + 1), ZERO_T[mname])
     steps = [{"op": "temp", "T": t} for t in path]
     if rng.random() < 0.3:
         # a fine ramp: many tiny temperature steps (converging thermal-hydraulic iterations look like this)
